@@ -1,0 +1,9 @@
+//go:build !verif
+
+package litestream
+
+// Verification hooks compile to nothing without the "verif" build tag.
+
+const verifEnabled = false
+
+func verifTrace(string, ...any) {}
